@@ -194,6 +194,10 @@ def generate(rng, tier, shard, nshards):
         elif r < 0.30:
             a = gen.logu(rng, 0.05, 30)
             ratio = gen.logu(rng, 1, 30) if rng.random() < 0.8 else 1.0 + rng.choice([-1, 1]) * 10.0 ** rng.uniform(-7, -3)     # nearly circular too
+            if rng.random() < 0.1:
+                # round axis ratios (the semi-minor axis stays above 0.05 px)
+                ratio = rng.choice([2.0, 10.0, 50.0, 100.0])
+                a = max(a, 0.06 * ratio)
             theta, unit = rng.uniform(-10, 10), rng.choice(['rad', 'deg'])
             if rng.random() < 0.3:
                 # exactly axis-aligned (the default orientation and its quarter turns), given in degrees so that it is exact
